@@ -297,6 +297,34 @@ def run(R):
                                       "args": args, "tree": cli.tree_json(tree), "history": [list(x) for x in seq], "build": os.path.basename(os.path.dirname(b))})
                     if i < 2 and len(R.coverage["samples"]) < 4:
                         R.sample({"args": args, "exit": rc})
+    # every boolean option of every subcommand that takes terms, once with each of a few non-ASCII terms (first character of 2, 3
+    # and 4 bytes, characters whose case mapping changes length): a deterministic sweep, the fuzz above only samples this product
+    na_terms = ["\u00c9mile", "\u00dcberbau_x", "\u0130stanbul", "\u01c5x", "\u65e5\u672c\u8a9e", "\U0001d4b3y", "\u00dfa"]
+    small_na = [{"p": "a.txt", "k": "f", "c": "\u00c9mile \u00dcberbau_x \u0130stanbul old_name\n".encode(), "m": 0o644}]
+    for sc in grammar["subcommands"]:
+        if sc["name"] in GRAMMAR_SKIP_CMDS:
+            continue
+        pos = sorted([a for a in sc["args"] if a["positional"] and a["required"]], key=lambda a: a["index"] or 0)
+        if not pos or any(a["id"] == "id" for a in pos):
+            continue
+        has_dry = any(a["long"] == "dry-run" for a in sc["args"])
+        flags = [a for a in sc["args"] if not a["positional"] and not a["global"] and a["long"] and not a["takes_value"]
+                 and a["long"] not in GRAMMAR_SKIP_OPTS and a["long"] != "dry-run"]
+        with cli.Sandbox(small_na) as sb:
+            for fi, a in enumerate(flags):
+                for ti in range(len(na_terms) if R.tier == "thorough" else 3):
+                    t1 = na_terms[(fi + ti) % len(na_terms)]
+                    t2 = na_terms[(fi + ti + 3) % len(na_terms)]
+                    args = ["--no-auto-init", "-y", sc["name"]] + [t1 if k == 0 else t2 for k, _ in enumerate(pos)] + ["--" + a["long"]] + (["--dry-run"] if has_dry else [])
+                    rc, o, e = sb.run(args, timeout=60)
+                    stats["cli_runs"] += 1
+                    stats["flag_x_nonascii_runs"] = stats.get("flag_x_nonascii_runs", 0) + 1
+                    stats["exit_codes"][rc] = stats["exit_codes"].get(rc, 0) + 1
+                    R.case(("flag_nonascii", tuple(args)), nontrivial=True)
+                    err = e.decode("utf-8", "replace")
+                    if rc == 101 or "panicked at" in err or rc not in OK_EXITS:
+                        fails.append({"why": f"command exited with status {rc}" + (": " + err[err.find("panicked at"):][:200] if "panicked at" in err else ""),
+                                      "args": args, "tree": cli.tree_json(small_na), "history": [args], "build": "debug"})
     # a working directory, a search root and entries whose names are not valid UTF-8 (legal Unix file names), every planning and
     # applying command, with and without --output json
     with cli.Sandbox([{"p": "a.txt", "k": "f", "c": b"old_name\n", "m": 0o644}]) as sb:
